@@ -106,8 +106,37 @@ theorem closeAgent_reach {s : MState} (h : Reach s.cyc) : Reach (closeAgent s).c
   · simp only; rw [resume_cyc]; exact h2
   · rw [resume_cyc]; exact h2
 
+theorem acceptGather_reach {s : MState} (h : Reach s.cyc) : Reach (acceptGather s).1.cyc := by
+  simp only [acceptGather]
+  split
+  · exact reach_step h _
+  · exact h
+  · exact h
+
+theorem startCycle_reach {s : MState} (h : Reach s.cyc) (cg : Option (Nat × Nat)) : Reach (startCycle s cg).cyc := by
+  simp only [startCycle]
+  split
+  · exact h
+  · split
+    · exact reach_step h _
+    · apply finishCycle_reach
+      rw [runCycleUnits_cyc]
+      exact reach_step h _
+
+theorem restartOp_reach {s : MState} (h : Reach s.cyc) : Reach (restartOp s).1.cyc := by
+  simp only [restartOp]
+  split
+  · rw [resume_cyc]; exact reach_step h _
+  · exact h
+
 theorem step_reach {s : MState} (h : Reach s.cyc) (op : Op) : Reach (step s op).1.cyc := by
   cases op with
+  | gather2 =>
+    simp only [step]
+    exact startCycle_reach (startCycle_reach (acceptGather_reach (acceptGather_reach h)) _) _
+  | grg =>
+    simp only [step]
+    exact startCycle_reach (startCycle_reach (acceptGather_reach (restartOp_reach (acceptGather_reach h))) _) _
   | gather =>
     simp only [step]
     split
